@@ -84,7 +84,7 @@ def apalache_inductive(c, ns):
 def run(c):
     c.stage("oracle")
     quick = c.tier == "quick"
-    grid = [(1, 1), (2, 2), (3, 1)] if quick else [(n, g) for n in (1, 2, 3, 4) for g in (1, 2, 3)]
+    grid = [(1, 1), (2, 2), (3, 1)] if quick else [(n, g) for n in (1, 2, 3, 4) for g in (1, 2)] + [(2, 3)]
     tfile = os.path.join(c.wd, "T.txt")
     gen = dist = 0
     for n, g in grid:
@@ -97,7 +97,7 @@ def run(c):
         dist += r["distinct"]
     # the 20-block cadence (band hook ; market hook) as a second bounded model, every transition a vector
     bfile = os.path.join(c.wd, "TB.txt")
-    bgrid = [(1, 1), (2, 2)] if quick else [(n, g) for n in (1, 2, 3) for g in (1, 2, 3)]
+    bgrid = [(1, 1), (2, 2)] if quick else [(1, 1), (2, 1), (2, 2), (3, 2), (2, 3)]
     for n, g in bgrid:
         cfg = "MC_Band_N%dG%d.cfg" % (n, g)
         with open(os.path.join(c.wd, cfg), "w") as f:
@@ -107,9 +107,9 @@ def run(c):
         gen += r["generated"]
         dist += r["distinct"]
     logf = os.path.join(c.wd, "oracle.ndjson")
-    runs, steps = (60, 60) if quick else (1500, 120)
+    runs, steps = (60, 60) if quick else (600, 100)
     vlib.run_vh(["oracle", "--vectors", tfile, "--band", bfile, "--out", logf, "--seed", str(c.seed), "--runs", str(runs), "--steps", str(steps)])
-    tr = vlib.trace_check(c.wd, "Trace_Oracle", "Trace_Oracle.cfg", logf, workers=4)
+    tr = vlib.trace_check_chunked(c.wd, "Trace_Oracle", "Trace_Oracle.cfg", logf, chunk_nodes=40000, workers=4 if quick else 8, heap="8g")
     c.judge(tr, logf)
     nodes = vlib.read_log(logf)
     c.samples = [nodes[0], nodes[len(nodes) // 2], nodes[-1]]
